@@ -196,6 +196,7 @@ inline XInst instantiate(const xdb::Form& f, int mode, Choices& c, bool allow_op
   const int vec_ids = mode == 64 ? (evex ? 32 : 16) : 8;
   int lead_id = -1;
   bool any_mem = false;
+  int str_addr_bits = 0;
 
   for (size_t oi = 0; oi < f.ops.size(); oi++) {
     const xdb::Op& d = f.ops[oi];
@@ -252,6 +253,9 @@ inline XInst instantiate(const xdb::Form& f, int mode, Choices& c, bool allow_op
       if (d.regIndexRel > 0) {
         // second..nth register of a consecutive run: must follow the lead
         if (lead_id >= 0) o.reg.id = (lead_id + d.regIndexRel) % 8;
+      } else if (lead_id < 0 && oi + 1 < f.ops.size() && f.ops[oi + 1].regIndexRel > 0 && (rc == RC::K || rc == RC::Xmm || rc == RC::Ymm || rc == RC::Zmm)) {
+        if (rc == RC::K) { o.reg.id &= 6; } else { o.reg.id &= ~3; }
+        lead_id = o.reg.id;
       } else if (f.consecutiveLead > 0 && lead_id < 0 && (rc == RC::K || rc == RC::Xmm || rc == RC::Ymm || rc == RC::Zmm) && d.write) {
         if (rc == RC::K) { o.reg.id &= 6; }                   // k pair: even lead
         else { o.reg.id &= ~3; }                              // block of 4
@@ -284,8 +288,10 @@ inline XInst instantiate(const xdb::Form& f, int mode, Choices& c, bool allow_op
       bool is_bx = d.memRegOnly.find("bx") != std::string::npos;
       int id = is_si ? 6 : is_bx ? 3 : 7;
       int sel = c.pick(8);
+      if (str_addr_bits) sel = (str_addr_bits == (mode == 64 ? 32 : 16)) ? 0 : 1;      // all string operands share one address size
       if (mode == 64) { m.base.rc = sel == 0 ? RC::Gp32 : RC::Gp64; m.addr_bits = sel == 0 ? 32 : 64; }
       else { m.base.rc = sel == 0 ? RC::Gp16 : RC::Gp32; m.addr_bits = sel == 0 ? 16 : 32; }
+      str_addr_bits = m.addr_bits;
       m.base.id = id;
       if (d.memSegment == "es") m.seg = c.chance(1, 3) ? 1 : 0;       // es:[zdi] cannot be overridden; explicit es allowed
       else m.seg = c.chance(1, 4) ? 1 + c.pick(6) : 0;
@@ -299,8 +305,10 @@ inline XInst instantiate(const xdb::Form& f, int mode, Choices& c, bool allow_op
     int seg_sel = c.pick(10);
     m.seg = seg_sel == 0 ? 5 : seg_sel == 1 ? 6 : seg_sel == 2 ? 1 + c.pick(4) : 0;
     if (seg_sel != 2) c.raw();
+    if (str_addr_bits && form_sel >= 12) form_sel = 4;
     if (mode == 64) {
       bool a32 = c.chance(1, 8);
+      if (str_addr_bits) a32 = str_addr_bits == 32;
       RC arc = a32 ? RC::Gp32 : RC::Gp64;
       m.addr_bits = a32 ? 32 : 64;
       auto pick_gp = [&](bool is_index) { int s = c.pick(8); int id = s == 0 ? 4 : s == 1 ? 5 : s == 2 ? 12 : s == 3 ? 13 : c.pick(16); if (s < 4) c.raw(); if (is_index && id == 4) id = 6; return id; };
@@ -318,6 +326,7 @@ inline XInst instantiate(const xdb::Form& f, int mode, Choices& c, bool allow_op
       else { m.abs = true; m.addr_bits = 64; m.disp = pick_disp(c, 1); }
     } else {
       bool a16 = c.chance(1, 6) && !vsib;
+      if (str_addr_bits) a16 = str_addr_bits == 16;
       m.addr_bits = a16 ? 16 : 32;
       if (a16) {
         // 16-bit addressing: bx+si, bx+di, bp+si, bp+di, si, di, bp, bx, or disp16
